@@ -75,7 +75,7 @@ def coordOp : Handler := fun j => do
       | some c => some { lemma := ((getStrOpt c "lemma").getD "").toList,
                          toks := ((getStrList c "toks").toOption.getD []).map String.toList }
     if shared then
-      match sCP pt andC conj ms with
+      match sCP pt andC conj ms r0 with
       | .error e => pure (errJson e)
       | .ok o => pure (Json.mkObj [("toks", toksJson o.toks), ("rec", recJson o.peng), ("pe", toJson o.pe), ("pl", toJson o.pl), ("w", toJson o.warns)])
     else
